@@ -336,3 +336,6 @@ def finish(stats, tier):
         if not stats["outcomes"].get(o):
             out.append("outcome never observed: " + o)
     return out
+
+
+RULE += ' Since rounds 10-11 also: roots below a symlinked directory; every flag set x filter also with --skip-content-hash (decoy differing inside the hashed prefix).'
